@@ -358,6 +358,29 @@ func runC04(c *Ctx) {
 				}
 			}
 		}
+		// numbers written with an exponent in JSON: refused beyond 10^+-10000, whatever the fraction does to the exponent
+		for _, e := range []int{0, 1, -1, 400, 9999, 10000, 10001, 10002, -9999, -10000, -10001, 30000000, -30000000, 2147483647} {
+			for _, frac := range []int{0, 1, 2, 5} {
+				text := "1"
+				if frac > 0 {
+					text += "." + strings.Repeat("5", frac)
+				}
+				text += fmt.Sprintf("e%d", e)
+				d := map[string]any{"json": text}
+				exp := ""
+				if c.Guard("K-numexpguard", "panic:json-number", d, func() {
+					v := types.JSONToXValue([]byte(text))
+					if _, isNum := v.(*types.XNumber); isNum {
+						exp = "ok"
+					} else {
+						exp = "refused"
+					}
+				}) {
+					continue
+				}
+				c.Model("numexpguard", fmt.Sprintf("numexpguard json %d %d", frac, e), exp, d)
+			}
+		}
 		// read_chars: byte slices at offsets counted in characters
 		for n := 0; n <= 13; n++ {
 			for _, alphabet := range []string{"0123456789", "abcXYZ", "дé日1"} {
